@@ -15,7 +15,7 @@ from __future__ import annotations
 
 import ast
 import re
-from typing import Dict, List, Optional, Set, Tuple
+from typing import Any, Dict, List, Optional, Set, Tuple
 
 from ..astq import assignments, calls, kwarg, local_from, params, stmts
 from ..callgraph import fkey
@@ -56,6 +56,49 @@ def run(chk: Check, proj: Project) -> None:
                lambda sub: C06.s2b_push_pop(sub, proj, w), only=lambda o: o.construct.endswith(">.push") or o.construct.endswith(">.update") or o.construct.endswith(">.dicts.insert") or o.construct.endswith(">.dicts.append"))
 
 
+def capture_model(ff: ast.AST) -> Tuple[Optional[str], List[Dict[str, Any]]]:
+    """Abstract model of FillNode._extract_fill's variable capture: the marker index variable and, for every loop over
+    the Context's layers, [{loop, whole, lower, upper, step, reversed, index_var, layer_var, stores:[{node, kind, atoms}]}].
+    `kind` is 'forloop' when the store runs under `"forloop" in <layer>`, else 'vars'."""
+    idx = local_from(ff, lambda v: isinstance(v, ast.Call) and last_attr(v.func) == "get_last_index" and "FILL_GEN_CONTEXT_KEY" in norm(v))
+    loops: List[Dict[str, Any]] = []
+    for lp in [x for x in body_walk(ff) if isinstance(x, ast.For) and ".dicts" in norm(x.iter)]:
+        if any(isinstance(a, ast.For) and ".dicts" in norm(a.iter) for a in ancestors(lp)):
+            continue
+        it = lp.iter
+        d: Dict[str, Any] = {"loop": lp, "reversed": False, "index_var": None, "layer_var": norm(lp.target), "whole": False, "lower": None, "upper": None, "step": None}
+        while isinstance(it, ast.Call) and isinstance(it.func, ast.Name) and it.func.id in ("enumerate", "reversed", "list", "tuple") and it.args:
+            if it.func.id == "reversed":
+                d["reversed"] = not d["reversed"]
+            if it.func.id == "enumerate" and isinstance(lp.target, ast.Tuple) and len(lp.target.elts) == 2:
+                d["index_var"], d["layer_var"] = norm(lp.target.elts[0]), norm(lp.target.elts[1])
+                if len(it.args) > 1 or it.keywords:
+                    d["index_var"] = None
+            it = it.args[0]
+        if isinstance(it, ast.Subscript) and isinstance(it.slice, ast.Slice) and norm(it.value).endswith(".dicts"):
+            d["lower"], d["upper"], d["step"] = it.slice.lower, it.slice.upper, it.slice.step
+        elif norm(it).endswith(".dicts"):
+            d["whole"] = True
+        else:
+            d["unknown"] = norm(it)
+        stores = []
+        for x in ast.walk(lp):
+            tgt = None
+            if isinstance(x, ast.Assign) and isinstance(x.targets[0], ast.Subscript) and "extra_context" in norm(x.targets[0].value):
+                tgt = x
+            elif isinstance(x, ast.Expr) and isinstance(x.value, ast.Call) and isinstance(x.value.func, ast.Attribute) and "extra_context" in norm(x.value.func.value):
+                tgt = x
+            if tgt is None:
+                continue
+            atoms = [(e, pol) for e, pol in flatten_conj(path_conditions(tgt, upto=lp))]
+            kind = "forloop" if any(pol and isinstance(e, ast.Compare) and isinstance(e.left, ast.Constant) and e.left.value == "forloop" and isinstance(e.ops[0], ast.In) for e, pol in atoms) else "vars"
+            stores.append({"node": tgt, "kind": kind, "atoms": atoms})
+        d["stores"] = stores
+        if stores:
+            loops.append(d)
+    return idx, loops
+
+
 def s12_layer_frame(chk: Check, proj: Project, w) -> None:
     chk.rule("S12", "layer frame of fill variables: the component's data layer is ALWAYS pushed (the fill layer is positioned relative to it), variables bound between the tag and the fill are captured from the discovery marker layer INCLUSIVE, and the position correction applies on every path")
     cm, cf = proj.func("component", "_prepare_template")
@@ -67,30 +110,74 @@ def s12_layer_frame(chk: Check, proj: Project, w) -> None:
            f"`{short(withs[0].items[0].context_expr)}` pushes the data layer only sometimes: render_func places the fill's captured variables one layer below the component layer assuming that layer exists; without it they land below the surrounding context and an outer variable of the same name wins")
     fm, ff = proj.func("slots", "FillNode._extract_fill")
     chk.analysed(fkey(fm, ff))
-    idx = local_from(ff, lambda v: isinstance(v, ast.Call) and last_attr(v.func) == "get_last_index" and "FILL_GEN_CONTEXT_KEY" in norm(v))
-    sl = [x for x in ast.walk(ff) if isinstance(x, ast.Subscript) and isinstance(x.slice, ast.Slice) and norm(x.value).endswith(".dicts")]
-    if not idx or not sl:
-        chk.undecided("S12", "slots:FillNode._extract_fill:capture-includes-marker-layer", fm.loc(ff), "marker index / capture slice not found")
+    idx, loops = capture_model(ff)
+    if not idx or not loops:
+        chk.undecided("S12", "slots:FillNode._extract_fill:capture-includes-marker-layer", fm.loc(ff), "marker index / capture loop not found")
     else:
-        lo = sl[0].slice.lower
-        okc = lo is not None and norm(lo) == idx and sl[0].slice.upper is None
-        chk.ob("S12", "slots:FillNode._extract_fill:capture-includes-marker-layer", fm.loc(sl[0]), okc,
-               f"the capture walks `.dicts[{idx}:]`, starting AT the marker layer" if okc else
-               f"the capture walks `{norm(sl[0])}`: the marker layer itself is skipped, but tags that bind with `as var` directly in the component body ({{% firstof .. as x %}}, {{% url .. as x %}}) write into exactly that layer - their bindings are dropped and the fill sees the outer variable")
-    if sl:
-        cap = next((lp for lp in ast.walk(ff) if isinstance(lp, ast.For) and any(x is sl[0] for x in ast.walk(lp.iter))), None)
-        if cap is not None:
-            jumps = [x for x in ast.walk(cap) if isinstance(x, (ast.Break, ast.Return)) or (isinstance(x, ast.Continue) and next((a for a in ancestors(x) if isinstance(a, (ast.For, ast.While))), None) is cap)]
-            chk.ob("S12", "slots:FillNode._extract_fill:capture-visits-every-layer", fm.loc(jumps[0]) if jumps else fm.loc(cap), not jumps,
-                   "the capture loop has no break / continue / return: every layer between the marker and the fill is looked at" if not jumps else
-                   f"`{short(enclosing_stmt(jumps[0]))}` cuts the capture short: scopes nested INSIDE a {{% for %}} ({{% for %}}{{% with x=.. %}}{{% fill %}}{{{{ x }}}}) are no longer captured and the fill renders without them")
-    fl_loops = [lp for lp in ast.walk(ff) if isinstance(lp, ast.For) and any(isinstance(c_, ast.Compare) and isinstance(c_.left, ast.Constant) and c_.left.value == "forloop" for c_ in ast.walk(lp))]
-    if fl_loops:
-        it = fl_loops[0].iter
-        whole = norm(it).endswith(".dicts")
-        chk.ob("S12", "slots:FillNode._extract_fill:loop-state-captured-from-all-layers", fm.loc(fl_loops[0]), whole,
-               f"the loop layers are collected from the whole `{norm(it)}`" if whole else
-               f"the loop layers are collected from `{norm(it)}` only: loops opened AROUND the component tag are no longer captured, and a fill whose context is rebuilt later (the dynamic component's target, isolated mode, inside another component) renders the loop variable / forloop as empty")
+        # (a) variables bound between the tag and the fill: captured from the marker layer inclusive
+        vs = [(lp, st) for lp in loops for st in lp["stores"] if st["kind"] == "vars"]
+        verdict: Optional[bool] = None
+        why = "no store of plain variables into extra_context found"
+        where = fm.loc(ff)
+        for lp, st in vs:
+            where = fm.loc(lp["loop"])
+            if not lp["whole"]:
+                lo = lp["lower"]
+                verdict = lo is not None and norm(lo) == idx and lp["upper"] is None and "unknown" not in lp
+                why = (f"the capture walks `.dicts[{idx}:]`, starting AT the marker layer" if verdict else
+                       f"the capture walks `{norm(lp['loop'].iter)}`: the marker layer itself is skipped (or layers are cut off), but tags that bind with `as var` directly in the component body ({{% firstof .. as x %}}, {{% url .. as x %}}) write into exactly that layer - their bindings are dropped and the fill sees the outer variable")
+            else:
+                cmp_ = [(e, pol) for e, pol in st["atoms"] if isinstance(e, ast.Compare) and len(e.ops) == 1 and lp["index_var"] is not None and {norm(e.left), norm(e.comparators[0])} == {lp["index_var"], idx}]
+                if not cmp_:
+                    verdict, why = None, "plain variables are captured from the whole stack without a comparison against the marker index"
+                else:
+                    e, pol = cmp_[0]
+                    op = type(e.ops[0])
+                    if norm(e.left) != lp["index_var"]:
+                        op = {ast.Lt: ast.Gt, ast.Gt: ast.Lt, ast.LtE: ast.GtE, ast.GtE: ast.LtE}.get(op, op)
+                    if not pol:
+                        op = {ast.Lt: ast.GtE, ast.GtE: ast.Lt, ast.Gt: ast.LtE, ast.LtE: ast.Gt}.get(op, op)
+                    verdict = op is ast.GtE
+                    why = (f"plain variables are captured from the layers with `{lp['index_var']} >= {idx}`, i.e. from the marker layer on" if verdict else
+                           f"`{norm(e)}` skips the marker layer itself, but tags that bind with `as var` directly in the component body ({{% firstof .. as x %}}, {{% url .. as x %}}) write into exactly that layer - their bindings are dropped and the fill sees the outer variable")
+            break
+        chk.ob("S12", "slots:FillNode._extract_fill:capture-includes-marker-layer", where, verdict, why)
+        # (b) nothing cuts the walk short
+        jumps = []
+        extra = []
+        for lp in loops:
+            jumps += [x for x in ast.walk(lp["loop"]) if isinstance(x, (ast.Break, ast.Return))]
+            for st in lp["stores"]:
+                for e, pol in st["atoms"]:
+                    t = norm(e)
+                    is_forloop = isinstance(e, ast.Compare) and isinstance(e.left, ast.Constant) and e.left.value == "forloop"
+                    is_idx = isinstance(e, ast.Compare) and lp["index_var"] is not None and {norm(e.left), norm(e.comparators[0])} == {lp["index_var"], idx}
+                    is_keyfilter = ".startswith('_')" in t
+                    if not (is_forloop or is_idx or is_keyfilter):
+                        extra.append((st["node"], t, pol))
+        bad_j = jumps[0] if jumps else (extra[0][0] if extra else None)
+        chk.ob("S12", "slots:FillNode._extract_fill:capture-visits-every-layer", fm.loc(bad_j) if bad_j is not None else fm.loc(loops[0]["loop"]), bad_j is None,
+               "the capture has no break / return and no condition besides the marker position, the forloop test and the `_` key filter: every layer between the marker and the fill is looked at" if bad_j is None else
+               (f"`{short(enclosing_stmt(jumps[0]))}` cuts the capture short" if jumps else f"the capture additionally depends on `{'' if extra[0][2] else 'not '}{extra[0][1]}`") + ": scopes nested INSIDE a {% for %} ({% for %}{% with x=.. %}{% fill %}{{ x }}) or other layers are no longer captured and the fill renders without them")
+        # (c) loop state from ALL layers
+        fls = [(lp, st) for lp in loops for st in lp["stores"] if st["kind"] == "forloop"]
+        if fls:
+            lp, st = fls[0]
+            restricted = [norm(e) for e, pol in st["atoms"] if not (isinstance(e, ast.Compare) and isinstance(e.left, ast.Constant) and e.left.value == "forloop")]
+            whole = lp["whole"] and not restricted
+            chk.ob("S12", "slots:FillNode._extract_fill:loop-state-captured-from-all-layers", fm.loc(lp["loop"]), whole,
+                   f"the loop layers are collected from the whole `{norm(lp['loop'].iter)}`" if whole else
+                   f"the loop layers are collected from `{norm(lp['loop'].iter)}`{' under `' + restricted[0] + '`' if restricted else ''} only: loops opened AROUND the component tag are no longer captured, and a fill whose context is rebuilt later (`only` in django mode, inside another component) renders the loop variable / forloop as empty")
+            # (e) ... but all-or-nothing: re-applying ONLY the loop layers from outside the tag puts them above nearer bindings
+            partial = whole and not any(st2["kind"] == "vars" and not any(isinstance(e, ast.Compare) and lp2["index_var"] is not None and {norm(e.left), norm(e.comparators[0])} == {lp2["index_var"], idx} for e, _p in st2["atoms"]) and lp2["whole"] for lp2 in loops for st2 in lp2["stores"])
+            chk.ob("S12", "slots:FillNode._extract_fill:outer-loop-values-over-nearer-bindings", fm.loc(st["node"]), not partial,
+                   "layers from outside the tag are captured all or not at all" if not partial else
+                   "of the layers OUTSIDE the component tag only the {% for %} layers are captured, and the captured variables are placed above the outer context: a loop variable of a loop around the tag wins over a nearer binding of the same name that also lies outside the tag - `{% for x in xs %}{% with x=1 %}{% component .. %}{% fill .. %}{{ x }}` renders the loop value, not 1 (both modes)")
+        # (d) one ordered pass
+        one = len(loops) == 1
+        chk.ob("S12", "slots:FillNode._extract_fill:captured-in-stack-order", fm.loc(loops[-1]["loop"]), one,
+               "every captured layer is applied in ONE pass over the stack, outermost first: the innermost binding of a name wins, as at the position of the fill" if one else
+               f"the captured variables are applied in {len(loops)} separate passes (`for .. in {norm(loops[0]['loop'].iter)}` then `for .. in {norm(loops[-1]['loop'].iter)}`): whatever the later pass stores shadows NEARER bindings of the earlier one - `{{% for x in xs %}}{{% with x=1 %}}{{% fill %}}{{{{ x }}}}` renders the loop value instead of 1")
     rm, rf = proj.func("slots", "_nodelist_to_slot_render_func.render_func")
     chk.analysed(fkey(rm, rf))
     iv = local_from(rf, lambda v: isinstance(v, ast.Call) and last_attr(v.func) == "get_last_index" and "_COMPONENT_CONTEXT_KEY" in norm(v))
@@ -158,6 +245,20 @@ def s10_mode_source(chk: Check, proj: Project, w) -> None:
     chk.ob("S10", "components.dynamic:forwarded-context-is-own-input", gm.loc(val) if val is not None and hasattr(val, "lineno") else om.loc(of), ok if val is not None else None,
            "the inner component is rendered with (a snapshot of) the dynamic component's own input context, i.e. what the isolation gate produced" if ok else
            f"the inner component is rendered with `{txt}`: `outer_context` is the FULL context of the tag, so under isolation (isolated mode / `only`) the target's template sees variables that were never passed")
+    # the target is created in the deferred hook: the context its fills are rendered in must be a snapshot taken at the tag too
+    recv = rc[0].func.value.id if rc and isinstance(rc[0].func, ast.Attribute) and isinstance(rc[0].func.value, ast.Name) else None
+    inst = [vv for _s, vv in assignments(of, recv) if isinstance(vv, ast.Call)] if recv else []
+    oc = kwarg(inst[0], "outer_context") if inst else None
+    oval = None
+    if isinstance(oc, ast.Subscript) and isinstance(oc.slice, ast.Constant):
+        for d in [x for x in ast.walk(gf) if isinstance(x, ast.Dict)]:
+            for k, vv in zip(d.keys, d.values):
+                if isinstance(k, ast.Constant) and k.value == oc.slice.value:
+                    oval = vv
+    snap = oval is not None and any(isinstance(x, ast.Call) and last_attr(x.func) == "snapshot_context" and x.args and norm(x.args[0]) == "self.outer_context" for x in ast.walk(oval))
+    chk.ob("S10", "components.dynamic:fill-context-is-snapshot-of-tag", gm.loc(oval) if oval is not None and hasattr(oval, "lineno") else (om.loc(inst[0]) if inst else om.loc(of)), snap if inst else None,
+           "the target's outer_context (where its fills are rendered in isolated mode) is snapshot_context(self.outer_context), taken in get_context_data, i.e. at the position of the tag" if snap else
+           f"the target is created in on_render_before - deferred when the tag sits in another component's template - with outer_context=`{norm(oc) if oc is not None else '?'}`: by then the live Context has left the {{% with %}} / {{% for %}} scopes around the tag, so in isolated mode `{{% with w=1 %}}{{% component \"dynamic\" is=.. %}}{{% fill %}}{{{{ w }}}}` renders w empty while the plain tag renders 1")
 
 
 def s7(chk: Check, proj: Project, w) -> None:
@@ -172,19 +273,21 @@ def s7(chk: Check, proj: Project, w) -> None:
                f"`{ctx}[{var}] = ...` binds the alias in the top layer" if ok else
                f"the alias `{var}` is not bound with `{ctx}[{var}] = ...` (e.g. setdefault only assigns when the name resolves nowhere): an unrelated outer variable of the same name wins over the slot data")
     m2, f2 = proj.func("slots", "FillNode._extract_fill")
-    loops = [x for x in body_walk(f2) if isinstance(x, ast.For) and ".dicts[" in norm(x.iter)]
+    idx, loops = capture_model(f2)
     if not loops:
-        chk.undecided("S7", "slots:FillNode._extract_fill:capture-order", m2.loc(f2), "capture loop over context.dicts[...] not found")
+        chk.undecided("S7", "slots:FillNode._extract_fill:capture-order", m2.loc(f2), "capture loop over context.dicts not found")
     else:
-        it = loops[0].iter
-        ok = isinstance(it, ast.Subscript) and isinstance(it.slice, ast.Slice) and it.slice.lower is not None and it.slice.upper is None and it.slice.step is None
-        chk.ob("S7", "slots:FillNode._extract_fill:capture-order", m2.loc(loops[0]), ok,
+        bad = [lp for lp in loops if lp["reversed"] or lp["step"] is not None or "unknown" in lp]
+        setd = [st["node"] for lp in loops for st in lp["stores"] if isinstance(st["node"], ast.Expr) and st["node"].value.func.attr not in ("update",)]
+        condk = [st["node"] for lp in loops for st in lp["stores"] if any(isinstance(e, ast.Compare) and isinstance(e.ops[0], (ast.In, ast.NotIn)) and "extra_context" in norm(e.comparators[0]) for e, _p in st["atoms"])]
+        ok = not bad and not setd and not condk
+        chk.ob("S7", "slots:FillNode._extract_fill:capture-order", m2.loc((bad[0]["loop"] if bad else (setd or condk or [loops[0]["loop"]])[0])), ok,
                "captured layers are walked outermost -> innermost with unconditional assignment (innermost wins)" if ok else
-               f"the capture loop walks `{short(it)}`: with unconditional assignment the OUTERMOST binding of a name wins, so a name bound twice between the tag and the fill evaluates differently from its position in the template")
+               f"the capture walks `{short(bad[0]['loop'].iter) if bad else short((setd or condk)[0])}`: the OUTERMOST binding of a name wins, so a name bound twice between the tag and the fill evaluates differently from its position in the template")
         # the captured keys exclude internal ones
-        stores = [x for x in ast.walk(loops[0]) if isinstance(x, ast.Assign) and isinstance(x.targets[0], ast.Subscript) and "extra_context" in norm(x.targets[0].value)]
-        okk = bool(stores) and all(any(pol and t.startswith("not ") and ".startswith('_')" in t for t, pol in cond_atoms(x)) or any((not pol) and ".startswith('_')" in t and not t.startswith("not ") for t, pol in cond_atoms(x)) for x in stores)
-        chk.ob("S7", "slots:FillNode._extract_fill:no-internal-keys-captured", m2.loc(stores[0]) if stores else m2.loc(loops[0]), okk if stores else None,
+        stores = [st for lp in loops for st in lp["stores"] if st["kind"] == "vars" and isinstance(st["node"], ast.Assign)]
+        okk = bool(stores) and all(any(".startswith('_')" in norm(e) and not pol for e, pol in st["atoms"]) for st in stores)
+        chk.ob("S7", "slots:FillNode._extract_fill:no-internal-keys-captured", m2.loc(stores[0]["node"]) if stores else m2.loc(loops[0]["loop"]), okk if stores else None,
                "keys starting with `_` (the library's internal keys, e.g. inject keys) are not captured into the fill" if okk else
                "the capture filter lets internal `_...` keys into the fill's extra context: the inject key of a {% provide %} that only wrapped the {% fill %} tag is captured, its data is released after fill discovery, and inject() inside the fill later raises KeyError for the dangling id")
 
@@ -241,6 +344,14 @@ def s2(chk: Check, proj: Project, w) -> None:
                 guarded = any(pol and "startswith(_INJECT_CONTEXT_KEY_PREFIX)" in t and t.startswith(norm(k)) for t, pol in atoms)
                 chk.ob("S2", f"context:make_isolated_context_copy:{short(s, 50)}", m.loc(s), guarded, "only keys with the inject prefix are copied" if guarded else
                        f"`{short(s)}` copies a key of the outer context into the isolated copy without the inject-prefix guard: an outer variable leaks into an isolated component")
+    for c in calls(f):
+        if isinstance(c.func, ast.Attribute) and norm(c.func.value) == fresh and c.func.attr in ("update", "push", "dicts"):
+            n += 1
+            a0 = c.args[0] if c.args else None
+            guarded = isinstance(a0, ast.DictComp) and any("startswith(_INJECT_CONTEXT_KEY_PREFIX)" in norm(i) for g in a0.generators for i in g.ifs) and not any(isinstance(i, ast.BoolOp) and isinstance(i.op, ast.Or) for g in a0.generators for i in g.ifs)
+            chk.ob("S2", f"context:make_isolated_context_copy:{short(enclosing_stmt(c), 50)}", m.loc(c), guarded,
+                   "only keys with the inject prefix are copied" if guarded else
+                   f"`{short(enclosing_stmt(c))}` forwards a whole mapping / layer of the outer context into the isolated copy: every other variable stored in the same layer (a `{{% firstof .. as v %}}` / `{{% cycle .. as v %}}` inside the provide body, slot data next to a provided key) reaches `only` / isolated components that were never passed it")
     chk.floor("S2-stores", n, 2)
     # the forloop helper pushes exactly one layer
     m2, f2 = proj.func("context", "_copy_forloop_context")
@@ -356,6 +467,11 @@ def s4(chk: Check, proj: Project, w) -> None:
         if mem == "DJANGO" and mine:
             okm = all(norm(r.value) == ctxp for r in mine)
             chk.ob("S4", "slots:_resolve_slot_context:django-uses-current-context", m.loc(mine[0]), okm, "django: fills evaluate in the current context")
+            # `only` isolates the component in EVERY mode (S1); then the current context is the isolated copy
+            alt = [r for r in filled if under(r).get("ISOLATED") is not True and "outer_context" in "".join(norm(x) for x in ast.walk(r.value) if isinstance(x, (ast.Name, ast.Attribute)))]
+            chk.ob("S4", "slots:_resolve_slot_context:only-flag-fill-scope", m.loc(mine[0]), bool(alt),
+                   "in django mode a component isolated with `only` renders its fills against the outer context" if alt else
+                   "in 'django' mode the fill is always rendered in the component's current context; under the `only` flag that context is the isolated copy (ComponentNode.render, S1) plus the component's data, so fill content sees none of the page variables: `{% component \"c\" only %}{% fill \"s\" %}{{ page_var }}{% endfill %}` renders empty although the fill is written at the position of the tag (only the captured loops / with-bindings inside the tag survive)")
     # anything else raises: a raise that runs when the behaviour equals none of the members
     okr = any(all(under(r).get(mem) is False for mem in members) for r in raises)
     chk.ob("S4", "slots:_resolve_slot_context:else-raises", m.loc(raises[0]) if raises else m.loc(f), okr, "an unknown behaviour raises")
